@@ -2489,7 +2489,14 @@ class Network:
             network = Network([])
         if recycles: 
             recycle_networks = [Network(*i) for i in cyclic_paths_with_recycle]
-            for recycle_network in recycle_networks:
+            while recycle_networks:
+                # Join loops that already share units with the network first;
+                # the remaining loops connect to the network through them.
+                for recycle_network in recycle_networks:
+                    if not network.isdisjoint(recycle_network): break
+                else:
+                    recycle_network = recycle_networks[0]
+                recycle_networks = [i for i in recycle_networks if i is not recycle_network]
                 network.join_recycle_network(recycle_network)
         ends.update(network.streams)
         disjunction_streams = set([i.get_stream() for i in disjunctions])
